@@ -22,43 +22,43 @@ TEXT = {
  "C05": ("Real GraphEngine under sequential model-based programs and 2-8 thread stress on hub nodes (seeded jitter and deterministic parking at the adjacency read-modify-write hook); batch creations/deletions from several threads on mostly disjoint nodes and racing delete_node; single-threaded bulk programs (batch_delete_nodes/edges on adjacent nodes around the 100-edge parallel threshold) against a reference multigraph; structural invariant walker and no-lost-edge conservation at quiescence; TSan leg on the concurrent part.",
          "Held on the programs/interleavings explored.",
          "runtime monitoring: invariant walker at quiescence + conservation oracle under stress and forced interleavings; ThreadSanitizer"),
- "C06": ("Real VectorEngine/HNSW against an f64 reference scorer: exhaustive-search exactness, cached-index soundness after every mutation API, re-ranking searches under every extended metric, queries of another dimension on every index-assisted path, searches in flight on several threads while every mutation API runs and index builds overlapping mutations (judged from call brackets and after the join), read-back exactness, on random stores (dense/sparse/zero/duplicate/mixed dimensions) and operation programs.",
+ "C06": ("Real VectorEngine/HNSW against an f64 reference scorer: exhaustive-search exactness, cached-index soundness after every mutation API, re-ranking searches under every extended metric, queries of another dimension on every index-assisted path, failing operations followed by a re-read of the model (partial effects), huge k / ef in child processes, searches in flight on several threads while every mutation API runs and index builds overlapping mutations (judged from call brackets and after the join), read-back exactness, on random stores (dense/sparse/zero/duplicate/mixed dimensions) and operation programs.",
          "Held on the programs explored; <=300 vectors, dim <=64 (+ some 384/768); epsilon for f32-vs-f64.",
          "runtime monitoring: reference-scorer oracle over randomized operation programs"),
- "C07": ("Stores filled through the real engines and raw puts (including cache-ring keys and incompressible payloads) are saved/loaded through 9 paths (plus routers built with SlabRouter::with_config at embedding dimensions 1-600) and re-observed through store and engine read APIs including relational-slab index reads after random schema/index histories (deep equality, documented tolerance for tensor-train vectors); atomic replacement is checked by killing a real save at every write/open/rename syscall under strace and loading the destination, by a protocol check on the syscall log, by enumerating temp-file prefixes and stale temp files, and by re-snapshotting after further writes.",
+ "C07": ("Stores filled through the real engines and raw puts (including cache-ring keys and incompressible payloads) are saved/loaded through 9 paths (plus routers built with SlabRouter::with_config at embedding dimensions 1-600) and re-observed through store and engine read APIs including relational-slab index reads after random schema/index histories, key reads (exists, prefix scan) over keys of every UTF-8 class, and stores filled past slab chunk / blob segment / cache-ring capacities (deep equality, documented tolerance for tensor-train vectors); atomic replacement is checked by killing a real save at every write/open/rename syscall under strace and loading the destination, by a protocol check on the syscall log, by enumerating temp-file prefixes and stale temp files, and by re-snapshotting after further writes.",
          "Process-kill model; dense random >=256-dim vectors are not judged (no documented bound when the rank cap binds).",
          "runtime monitoring: record-and-compare oracle + strace kill injection and syscall-log protocol monitor"),
- "C08": ("Random statement programs through the real QueryRouter (sync, async and parsed-statement entry points, query cache on/off, plain and Bloom-filter stores) with CHECKPOINT / ROLLBACK TO; the observation vector (table, graph, embedding queries) recorded at checkpoint time must be reproduced after rollback; further writes must work; retention keeps the newest N, also over repeated checkpoint/rollback cycles that reuse names of purged checkpoints.",
+ "C08": ("Random statement programs through the real QueryRouter (sync, async and parsed-statement entry points, query cache on/off, plain and Bloom-filter stores) with CHECKPOINT / ROLLBACK TO; the observation vector (table, graph, embedding queries) recorded at checkpoint time must be reproduced after rollback; further writes must work; retention keeps the newest N, also over repeated checkpoint/rollback cycles that reuse names of purged checkpoints and after rollbacks far back followed by a full turnover of the list.",
          "Held on the programs explored; retention judged only at the 1 s granularity of the code's stamps.",
          "runtime monitoring: record-and-compare oracle at the query interface"),
- "C09": ("Real RelationalEngine transactions: sequential and interleaved multi-transaction programs over tables with hash and ordered indexes; pre-transaction recordings must be reproduced after rollback through every access path, commits must persist, conflicting writers must get LockConflict, no locks may remain; statements failing half-way under tight index capacity; lock expiry and take-over scenarios; real threads: one wide multi-row statement against small transactions that commit on its rows between its scan and its locks.",
+ "C09": ("Real RelationalEngine transactions: sequential and interleaved multi-transaction programs over tables with hash and ordered indexes; pre-transaction recordings must be reproduced after rollback through every access path, commits must persist, conflicting writers must get LockConflict, no locks may remain; statements failing half-way under tight index capacity; lock expiry and take-over scenarios; real threads: one wide multi-row statement against small transactions that commit on its rows between its scan and its locks; the time-out reaper (clock-free and timed variants).",
          "Held on the programs/interleavings explored; lock timeouts exercised at 1 s granularity with don't-care windows.",
          "runtime monitoring: model + record-and-compare oracle, lock-table monitor"),
  "C10": ("A real RaftNode with a real WAL is driven through elections, votes, appends, truncations, leader careers, log compaction and snapshot installs; every reply/ack adds obligations (term, vote, entries) stamped with the WAL length; every byte-prefix crash image (chains of 3 crashes) is restarted with with_wal and must honour all obligations stamped before the cut.",
          "Process-crash model; see C02.",
          "runtime monitoring: promise-ledger oracle over byte-granular crash images of the real WAL"),
- "C11": ("2-8 OS threads on 1-4 contended keys of every key class on one real TensorStore (durable and not); client-boundary history with atomic ticks; self-describing values detect torn/mixed reads; per-key Wing-Gong linearizability check; scan atomicity over >2000 keys against real-time ordered write pairs; recovered-state == live-state after quiescence with checkpoints concurrent to the writers; deterministic two-writer schedule at the put_durable hook; rounds in which the durable log refuses records (refused writes are open operations; the files a crash would leave must recover to the live state); the same workload under ThreadSanitizer.",
+ "C11": ("2-8 OS threads on 1-4 contended keys of every key class on one real TensorStore (durable and not); client-boundary history with atomic ticks; self-describing values detect torn/mixed reads; per-key Wing-Gong linearizability check; scan atomicity over >2000 keys against real-time ordered write pairs; recovered-state == live-state after quiescence with checkpoints concurrent to the writers; deterministic two-writer schedule at the put_durable hook; rounds in which every key has a single writer thread (exact judgement of each read), rounds in which the durable log refuses records (refused writes are open operations; the files a crash would leave must recover to the live state); the same workload under ThreadSanitizer.",
          "Held on the interleavings observed; delete's Ok/NotFound result is not judged; scan atomicity is judged for keys of one class.",
          "runtime monitoring: linearizability checking of recorded histories + ThreadSanitizer + forced interleavings at hooks"),
- "C12": ("Real LockManager under 2-6 threads with a sound shadow-owner table, model-based sequential programs with expiry and serialize/restore, the real coordinator and a real TxParticipant under retransmitted PREPAREs, stray decisions, stale sweeps and save/load against a reference key->holder table, preparing threads against an orphan-lock sweeper thread, and the real WaitForGraph/DeadlockDetector against a reference SCC on all digraphs over <=4 transactions and random ones up to 8.",
+ "C12": ("Real LockManager under 2-6 threads with a sound shadow-owner table, key-lock leases that run out and are taken over (aged lock tables, short real leases), model-based sequential programs with expiry and serialize/restore, the real coordinator and a real TxParticipant under retransmitted PREPAREs, stray decisions, stale sweeps and save/load against a reference key->holder table, preparing threads against an orphan-lock sweeper thread, and the real WaitForGraph/DeadlockDetector against a reference SCC on all digraphs over <=4 transactions and random ones up to 8.",
          "Held on what was explored; expiry windows are don't-care.",
          "runtime monitoring: shadow-state monitor + reference oracle (exhaustive for <=4 transactions)"),
- "C13": ("Real coordinator with a real TxWal: byte-granular crash images (chains of 3) are recovered and probed (commit/abort/timeouts/pending decisions/new transactions) against a classification the harness decodes itself from the durable prefix (including lock handles of completed transactions, completions logged after the restart, outcomes announced by commit/abort/cleanup_timeouts/complete_* before the crash, and transactions whose log says Prepared although a participant had not voted).",
+ "C13": ("Real coordinator with a real TxWal: byte-granular crash images (chains of 3) are recovered and probed (commit/abort/timeouts/pending decisions/new transactions) against a classification the harness decodes itself from the durable prefix (including lock handles of completed transactions, completions logged after the restart, outcomes announced by commit/abort/cleanup_timeouts/complete_* or handed out by get_pending_decisions before the crash, re-delivered votes and PREPAREs after the restart, every later completion record, and transactions whose log says Prepared although a participant had not voted).",
          "Process-crash model; see C02.",
          "runtime monitoring: crash-image fault injection with independent log-decoding oracle"),
  "C14": ("Random programs of vault operations by root and 3-5 identities (grants, TTLs, delegation DAGs with plain and cascading revocation, rotation, restarts) compared decision-by-decision with an independent access model (only-if direction), plus byte-substring scans for unique secret names/values in the store image, snapshots, audit records and error messages.",
          "Held on the programs explored; TTL decisions ignored within a margin of the expiry instant.",
          "runtime monitoring: reference access-model oracle + at-rest marker scan"),
- "C15": ("Totality/determinism/span checks of the real lexer/parsers on random, token-soup, mutated and deeply nested inputs (child processes catch stack overflow/abort), precedence round-trips of generated expression trees through both expression parsers against the documented table, and text-vs-direct-call equivalence through the router.",
+ "C15": ("Totality/determinism/span checks of the real lexer/parsers on random, token-soup, mutated and deeply nested inputs (child processes catch stack overflow/abort), sessions of re-spelled texts on one thread compared with the same text on a fresh thread (no dependence on earlier input), composite nesting ladders, precedence round-trips of generated expression trees through both expression parsers against the documented table, and text-vs-direct-call equivalence through the router.",
          "Held on the inputs explored; <=4 KiB strings, depth <=8 trees.",
          "runtime monitoring: grammar-based generation with round-trip and differential oracles, crash containment in child processes"),
  "C16": ("Real TensorChain: sequential workspace programs, tamper matrix over every stored block and field, concurrent commits (stress and parked at the commit hook), replica replay on two stores, re-opening the chain on crash images with the persisted height behind/ahead of the stored blocks; verify() must accept built chains and reject tampered ones, commits must be atomic.",
          "Held on the programs/interleavings explored.",
          "runtime monitoring: tamper-injection oracle + atomicity/conservation checks under forced interleavings"),
- "C17": ("Real LWWMembershipState / GossipMembershipManager on every multiset of <=4 (quick) / <=5 (thorough) updates over a small universe in every permutation and batching, plus random larger multisets and random programs of merges and local events (Syncs also sent by observed members reporting on themselves), with an online monitor for view equality, monotonicity and retention of every delivered incarnation; hybrid-logical-clock programs.",
+ "C17": ("Real LWWMembershipState / GossipMembershipManager on every multiset of <=4 (quick) / <=5 (thorough) updates over a small universe in every permutation and batching, plus random larger multisets and random programs of merges and local events (Syncs also sent by observed members reporting on themselves), with an online monitor for view equality, monotonicity and retention of every delivered incarnation; the receiving node as an observed member; observer threads asserting that what they read never decreases while other threads deliver; hybrid-logical-clock programs.",
          "Universe bounded (2 members, incarnation 0-2, timestamp 1-2 for the exhaustive part).",
          "runtime monitoring: online oracle over enumerated delivery orders and randomized programs"),
- "C18": ("Real GraphEngine path queries and algorithms against independent reference implementations (BFS, Bellman-Ford, DFS enumeration, Tarjan, Kruskal, peeling, triangle enumeration, exhaustive enumeration of variable-length pattern matches) on random multigraphs with self-loops, parallel edges, mixed direction, filters.",
+ "C18": ("Real GraphEngine path queries and algorithms against independent reference implementations (BFS, Bellman-Ford, DFS enumeration, Tarjan, Kruskal, peeling, triangle enumeration, exhaustive enumeration of variable-length pattern matches) on random multigraphs with self-loops, parallel edges, mixed direction, filters, and on the graphs left behind by random create/delete/update histories.",
          "Held on the graphs explored (<=40 nodes).",
          "runtime monitoring: reference-algorithm oracle on randomized inputs"),
  "C19": ("Real BlobStore against a byte-exact model with chunk reference-count conservation at quiescence, sizes around chunk boundaries, damage injection for verify, and concurrent writers/deleters/collectors.",
